@@ -1047,7 +1047,81 @@ class C08(Prop):
                     res.oracle_failures.append(dict(key="C08|f32|does-not-read-back-bit-identically", case=f"c08 f32 {m_.group(2)}", detail=line))
 
 
-REGISTRY = {"C05": C05(), "C08": C08(), "C07": C07(), "C03": C03(), "C02": C02(), "C20": C20(), "C09": C09(), "C10": C10(), "C14": C14(), "C12": C12()}
+# ------------------------------------------------------------------------------------------
+# C18
+
+class C18(Prop):
+    rule = ("stateless model checking of the real code through the sonic_rs::verif scheduler hook: for both caches (LazyValue's Arc<String>, "
+            "OwnedLazyValue's Box<Parsed>) and the thread programs R/R, R/C, RR/R, R/CXD, CXD/CXD, RCD/R, R/CD, RC/RD (2 threads, exhaustive DFS over "
+            "all interleavings of their atomic operations) and R/R/R, R/R/CXD, R/C/C, RR/R/CD (3 threads, DFS capped at 600 quick / 30000 thorough "
+            "schedules), with spurious failure as an extra branch at every weak compare-exchange; every explored schedule is replayed on the Lean "
+            "transition system; non-trivial = the schedule contains a compare-exchange")
+    trusted = ["sequential consistency at the granularity of the hooked atomic operations (orderings weaker than SC, e.g. the Relaxed load in "
+               "clone_lazyraw, are not modelled)", "leaks are measured by a counting allocator around the library calls of each schedule"]
+    assumptions = ["x86 never fails a compare-exchange spuriously: spurious failures exist only through the hook"]
+
+    def explore(self, ctx, res):
+        name = "c18"
+        cases_path = generate(ctx, name)
+        impl_path = cases_path + ".impl"
+        rc, err = ctx["run_lines"](ctx["vh"], [name, "run", str(ctx["seed"]), ctx["tier"]], cases_path, impl_path)
+        with open(impl_path, errors="replace") as f:
+            lines = f.read().splitlines()
+        with open(cases_path) as f:
+            cases = f.read().splitlines()
+        scen = None
+        runs = []
+        for l in lines:
+            if l.startswith("scenario"):
+                d = ctx["parse_fields"](l)
+                scen = (d["kind"], d["progs"])
+            elif l.startswith("sched="):
+                runs.append((scen, ctx["parse_fields"](l)))
+        if rc != 0:
+            # the process died (a null dereference after a spurious weak-CAS failure ends in SIGSEGV)
+            last = f"c18 {scen[0]} {scen[1]}" if scen else (cases[0] if cases else "c18")
+            res.oracle_failures.append(dict(key="c18:process-abort", case=last, detail=f"harness died (rc={rc}) while exploring {scen}; last schedule: {runs[-1][1].get('sched') if runs else None}"))
+        qp = cases_path + ".query"
+        with open(qp, "w") as q:
+            for (kind, progs), R in runs:
+                q.write(f"c18v {kind} {progs} {R.get('sched') or '-'} {R.get('kinds') or '-'}\n")
+        outs = []
+        if ctx["driver"]:
+            ctx["run_lines"](ctx["driver"], [], qp, qp + ".out")
+            with open(qp + ".out", errors="replace") as f:
+                outs = f.read().splitlines()
+        seen = set()
+        for i, ((kind, progs), R) in enumerate(runs):
+            res.evaluations += 1
+            case = f"c18 {kind} {progs} sched={R.get('sched')} kinds={R.get('kinds')}"
+            if "S" in R.get("kinds", "") or "W" in R.get("kinds", ""):
+                res.nontrivial(case)
+            res.distribution[f"{kind}:{progs}"] += 1
+            if len(res.samples) < 6 and i % max(1, len(runs) // 6) == 0:
+                res.samples.append({"case": case, "impl": str(R)[:200], "model": outs[i] if i < len(outs) else None})
+            # direct oracle on the implementation
+            results = [x for th in R.get("res", "").split("|") for x in th.split(";") if x]
+            if any(x in ("RWRONG", "RNONE", "XWRONG", "XNONE") for x in results):
+                res.oracle_failures.append(dict(key=f"C18|{kind}|reader-got-wrong-result", case=case, detail=R.get("res", "")))
+            rs = {x for x in results if x.startswith("R")}
+            if len(rs) > 1:
+                res.oracle_failures.append(dict(key=f"C18|{kind}|readers-see-different-decodings", case=case, detail=R.get("res", "")))
+            if R.get("leak") != "0":
+                res.oracle_failures.append(dict(key=f"C18|{kind}|decoding-leaked-or-double-freed", case=case, detail=f"allocation balance {R.get('leak')} bytes after everything was dropped"))
+            if "W" in R.get("kinds", ""):
+                res.oracle_failures.append(dict(key=f"C18|{kind}|weak-compare-exchange-without-retry", case=case, detail="the protocol has no retry loop; a weak CAS may fail spuriously with a null witness"))
+            # correspondence: the trace must be a run of the model with the same observations
+            if i < len(outs):
+                M = ctx["parse_fields"](outs[i])
+                if M.get("valid") != "ok" or M.get("finished") != "A" or M.get("crash") != "R" or M.get("refs") != "A":
+                    res.model_disagreements.append(dict(key=f"c18:trace-not-a-model-run:{kind}", case=case, detail=outs[i][:160]))
+            elif ctx["driver"]:
+                res.model_disagreements.append(dict(key="c18:model-output-missing", case=case, detail=""))
+        res.exhaustive = not any("capped" in l for l in lines)
+        res.notes.append("schedules explored per scenario: " + ", ".join(f"{k}={v}" for k, v in sorted(res.distribution.items())))
+
+
+REGISTRY = {"C05": C05(), "C18": C18(), "C08": C08(), "C07": C07(), "C03": C03(), "C02": C02(), "C20": C20(), "C09": C09(), "C10": C10(), "C14": C14(), "C12": C12()}
 for _k, _v in REGISTRY.items():
     _v.pid = _k
 
